@@ -27,6 +27,22 @@ def _iso(dt):
     return dt.strftime("%Y-%m-%dT%H:%M:%S.") + "%03dZ" % (dt.microsecond // 1000)
 
 
+class _Memo(Exception):
+    def __init__(self, response):
+        self.response = response
+
+
+def _memoised(fn):
+    def wrapper(self, *a, **kw):
+        try:
+            return fn(self, *a, **kw)
+        except _Memo as m:
+            return m.response
+
+    wrapper.__name__ = fn.__name__
+    return wrapper
+
+
 class Exchange:
     """Sequential model of the exchange: unique bet ids make every history unambiguous."""
 
@@ -38,6 +54,8 @@ class Exchange:
         self.now = EPOCH
         self.strategy_ref = strategy_ref if strategy_ref is not None else fconfig.customer_strategy_ref
         self.place_memo = {}  # customer_ref -> response json (re-submission returns the original outcome)
+        self.remember = False  # set while LiveWorld.exchange_process runs
+        self.memo = {}  # (kind, customer_ref) -> (resource class, kwargs): the exchange has already processed this call
 
     # ---- helpers
     def tick(self, ms=1):
@@ -47,6 +65,14 @@ class Exchange:
     def _decide(self, kind, market_id, instructions, customer_ref):
         n_prev = sum(1 for c in self.calls if c["customer_ref"] == customer_ref and c["kind"] == kind)
         rec = {"kind": kind, "market_id": market_id, "instructions": copy.deepcopy(instructions), "customer_ref": customer_ref, "attempt": n_prev + 1, "n": len(self.calls)}
+        if (kind, customer_ref) in self.memo:
+            # the exchange processed this request earlier (LiveWorld.exchange_process); this is the response being delivered
+            rec["memo_hit"] = True
+            rec["answered"] = True
+            rec["reports"] = []
+            self.calls.append(rec)
+            cls, kw = self.memo[(kind, customer_ref)]
+            raise _Memo(cls(**copy.deepcopy(kw), elapsed_time=0.01))
         self.calls.append(rec)
         plan = self.plan(rec) if self.plan else {}
         plan = plan or {}
@@ -66,6 +92,7 @@ class Exchange:
         return {"status": "SUCCESS"}
 
     # ---- API: betting_client.betting.*
+    @_memoised
     def place_orders(self, market_id, instructions, customer_ref=None, market_version=None, customer_strategy_ref=None, async_=None, session=None):
         rec, plan = self._decide("PLACE", market_id, instructions, customer_ref)
         if customer_ref in self.place_memo:
@@ -102,8 +129,11 @@ class Exchange:
         js = {"marketId": market_id, "status": st, "customerRef": customer_ref, "instructionReports": reports}
         self.place_memo[customer_ref] = js
         rec["reports"] = reports
+        if self.remember:
+            self.memo[("PLACE", customer_ref)] = (resources.PlaceOrders, js)
         return resources.PlaceOrders(**copy.deepcopy(js), elapsed_time=0.01)
 
+    @_memoised
     def cancel_orders(self, market_id=None, instructions=None, customer_ref=None, session=None):
         rec, plan = self._decide("CANCEL", market_id, instructions, customer_ref)
         reports = []
@@ -137,8 +167,12 @@ class Exchange:
         st = "SUCCESS" if all(r["status"] == "SUCCESS" for r in reports) else "FAILURE"
         rec["reports"] = returned
         rec["all_reports"] = reports
-        return resources.CancelOrders(marketId=market_id, status=st, customerRef=customer_ref, instructionReports=copy.deepcopy(returned), elapsed_time=0.01)
+        js = dict(marketId=market_id, status=st, customerRef=customer_ref, instructionReports=copy.deepcopy(returned))
+        if self.remember:
+            self.memo[("CANCEL", customer_ref)] = (resources.CancelOrders, js)
+        return resources.CancelOrders(**copy.deepcopy(js), elapsed_time=0.01)
 
+    @_memoised
     def update_orders(self, market_id=None, instructions=None, customer_ref=None, session=None):
         rec, plan = self._decide("UPDATE", market_id, instructions, customer_ref)
         reports = []
@@ -157,8 +191,12 @@ class Exchange:
             reports.append(rep)
         st = "SUCCESS" if all(r["status"] == "SUCCESS" for r in reports) else "FAILURE"
         rec["reports"] = reports
-        return resources.UpdateOrders(marketId=market_id, status=st, customerRef=customer_ref, instructionReports=copy.deepcopy(reports), elapsed_time=0.01)
+        js = dict(marketId=market_id, status=st, customerRef=customer_ref, instructionReports=copy.deepcopy(reports))
+        if self.remember:
+            self.memo[("UPDATE", customer_ref)] = (resources.UpdateOrders, js)
+        return resources.UpdateOrders(**copy.deepcopy(js), elapsed_time=0.01)
 
+    @_memoised
     def replace_orders(self, market_id=None, instructions=None, customer_ref=None, market_version=None, async_=None, session=None):
         rec, plan = self._decide("REPLACE", market_id, instructions, customer_ref)
         reports = []
@@ -209,7 +247,10 @@ class Exchange:
             reports.append({"status": status, "cancelInstructionReport": crep, "placeInstructionReport": prep})
         st = "SUCCESS" if all(r["status"] == "SUCCESS" for r in reports) else "FAILURE"
         rec["reports"] = reports
-        return resources.ReplaceOrders(marketId=market_id, status=st, customerRef=customer_ref, instructionReports=copy.deepcopy(reports), elapsed_time=0.01)
+        js = dict(marketId=market_id, status=st, customerRef=customer_ref, instructionReports=copy.deepcopy(reports))
+        if self.remember:
+            self.memo[("REPLACE", customer_ref)] = (resources.ReplaceOrders, js)
+        return resources.ReplaceOrders(**copy.deepcopy(js), elapsed_time=0.01)
 
     # ---- bet table
     def _new_bet(self, market_id, ins, strategy_ref):
@@ -383,6 +424,35 @@ class LiveWorld:
         self.fw._process_market_books(MarketBookEvent(books))
         self.books[mid] = books[0]
         return books[0]
+
+    def exchange_process(self, i=0):
+        """The exchange receives and processes queued request i NOW (bet table changes); the response is delivered to
+        flumine later, when the executor runs the call.  Models an order-stream update overtaking an HTTP response."""
+        fn, a, kw = self.executor.queue[i]
+        pkg = a[0]
+        if getattr(pkg, "_vf_exchanged", False):
+            return False
+        kind = fn.__name__.replace("execute_", "").upper()
+        ex = self.exchange
+        ex.remember = True
+        try:
+            if kind == "PLACE":
+                ex.place_orders(market_id=pkg.market_id, instructions=pkg.place_instructions, customer_ref=pkg.id.hex, market_version=pkg.market_version, customer_strategy_ref=pkg.customer_strategy_ref, async_=pkg.async_)
+            elif kind == "CANCEL":
+                ins = list(pkg.cancel_instructions)
+                if not ins:
+                    return False
+                ex.cancel_orders(market_id=pkg.market_id, instructions=ins, customer_ref=pkg.id.hex)
+            elif kind == "UPDATE":
+                ex.update_orders(market_id=pkg.market_id, instructions=pkg.update_instructions, customer_ref=pkg.id.hex)
+            else:
+                ex.replace_orders(market_id=pkg.market_id, instructions=pkg.replace_instructions, customer_ref=pkg.id.hex, market_version=pkg.market_version, async_=pkg.async_)
+        except Exception:
+            return False
+        finally:
+            ex.remember = False
+        pkg._vf_exchanged = True
+        return True
 
     def market(self, mid):
         return self.fw.markets.markets.get(mid)
